@@ -84,12 +84,32 @@ def run_pls(ck, rng, tier, which):
                 for j in range(M_.shape[1]):
                     if abs(M_[:, j].sum()) < 1e-5:
                         M_[:, j] += 3e-5
+        designed = c in (9, 17)
+        if designed:
+            # integer-valued (designed) data with integer column means, centring only: centred cells that are EXACTLY 0, and a
+            # descriptor whose sum of products with the centred response is EXACTLY 0 (weight 0.0 on the first latent variable)
+            # although it is correlated with the other descriptors (loading not 0) and gets a weight on the next one
+            n, m, ny, xs, ys, noise = 8, 3, 1, 0, 0, 1.0
+            k3 = rng.choice((1.0, 2.0))
+            yc = np.array([-3.0, -1, 1, 3, -3, -1, 1, 3])
+            x3 = k3 * np.array([1.0, -1, -1, 1, 1, -1, -1, 1])
+            x2 = np.array([0.0, 1, 0, 3, 1, 0, 2, 1])
+            e = np.array([1.0, 0, 0, -1, -1, 0, 0, 1])
+            X = np.column_stack([yc + x3, x2, x3]) + np.array([float(rng.randint(-3, 3)) for _ in range(3)])
+            Y = (yc + e + float(rng.randint(-4, 4))).reshape(n, 1)
+            prm = list(range(n)); rng.shuffle(prm)
+            X, Y = X[prm], Y[prm]
+            if c == 17:
+                X = X[:, [2, 0, 1]]
+            ck.count("designed integer data (exact zero weight / exactly centred cells)")
         Xc = c02.preprocess(X, xs)
         rank = int(np.linalg.matrix_rank(Xc, tol=1e-9 * max(1.0, np.abs(Xc).max())))
         if rank < 1:
             continue
         nlv = rng.choice((rank, rank, 1, rng.randint(1, rank)))
         if corner == 6 and c < 16 and m == 7:
+            nlv = rank
+        if designed:
             nlv = rank
         Xnew = np.array([[rng.gauss(0, 1) * 2 + rng.uniform(-3, 3) for _ in range(m)] for _ in range(3)])
         lines.append("pls %s %s %s %d %d %d" % (vf.fmt_mat(X.tolist(), m), vf.fmt_mat(Y.tolist(), ny), vf.fmt_mat(Xnew.tolist(), m), xs, ys, nlv))
